@@ -730,11 +730,10 @@ impl Game {
         }
 
         let mut push = |_move| {
-            // SAFETY: The number of possible moves on the board at any given time
-            // will never exceed the arrays capacity (256)
-            unsafe {
-                moves.push_unchecked(_move);
-            }
+            // No position reachable in a real game has more moves than the buffer holds (256),
+            // but the FEN reader accepts artificial ones that do (e.g. dozens of queens):
+            // their surplus moves are dropped instead of being written past the buffer
+            let _ = moves.try_push(_move);
         };
 
         for row in 0..8 {
